@@ -4,7 +4,7 @@ META = dict(
     spec="Keystore",
     level_text=("TLC checks a three-layer model (abstract no-overwrite map, the file system touched by FSKeystore incl. decoy "
                 "files outside the directory, the MemKeystore map) exhaustively, with a control configuration (raw names used "
-                "as file names) that must violate confinement. Every mutator history of depth 3 (quick) / 5 (thorough) over two "
+                "as file names) that must violate confinement. Every mutator history of depth 3 (quick) / 4 with two keys and 5 with one key (thorough) over two "
                 "ordinary names, an over-long and the empty name, and simulated 40-step histories over 12 names, are replayed on "
                 "the real FSKeystore and MemKeystore in lock-step for six real-name tables (case variants, ../x, a/b, NUL, "
                 "non-ASCII, '.', '..', 156-byte name) with a full query battery and a listing of the keystore directory and a "
@@ -23,7 +23,7 @@ def run(ctx):
     ctx.assumptions += ["file system with NAME_MAX = 255 and case-sensitive names (Linux tmp dir)",
                         "keys are Ed25519 keys that marshal/unmarshal faithfully (go-libp2p crypto)",
                         "empty name: only Put is in scope; names whose encoded form exceeds NAME_MAX are driven on the FS keystore only"]
-    ctx.cov["rule"] = ("G: every Put/Delete/Reopen history of depth D over {n1,n2,nL(over-long),nE(empty)} x 2 keys (exhaustive BFS), "
+    ctx.cov["rule"] = ("G: every Put/Delete/Reopen history of depth D (3 quick; 4, and 5 with a single key, thorough) over {n1,n2,nL(over-long),nE(empty)} x 2 keys (exhaustive BFS), "
                        "each replayed with 2 (quick, rotating) / all 6 (thorough) real-name tables, plus simulated 40-step histories over 12 real names; after every step "
                        "Has/Get on every name, List, directory listing and parent snapshot are compared with the model map. "
                        "T: random histories validated by TraceKeystore. non-trivial = the model map changed at least twice")
@@ -33,8 +33,9 @@ def run(ctx):
     if ctl["violated"] not in ("ResultsAgree", "Confined", "Refines"):
         ctx.broken("non-vacuity control: raw file names should violate ResultsAgree/Confined in the model, got %s" % ctl["violated"])
     # G
-    behs = ctx.tlc_gen("Keystore", "GenKeystore.tla", "GenKeystore.cfg" if ctx.quick else "GenKeystoreD5.cfg",
+    behs = ctx.tlc_gen("Keystore", "GenKeystore.tla", "GenKeystore.cfg" if ctx.quick else "GenKeystoreD4.cfg",
                        timeout=3000, workers=4)
+    deep = [] if ctx.quick else ctx.tlc_gen("Keystore", "GenKeystore.tla", "GenKeystoreD5K1.cfg", timeout=3000, workers=4)
     sims = ctx.tlc_gen("Keystore", "GenKeystore.tla", "GenKeystoreSim.cfg",
                        simulate=10 if ctx.quick else 100, depth=41 * 3 + 1, timeout=1500)
     binp = ctx.go_build("keystore", ["keystore/zz_verif_C40_test.go"])
@@ -45,8 +46,9 @@ def run(ctx):
             n += (prev is not None and st["m"] != prev) or (prev is None and any(st["m"].values()))
             prev = st["m"]
         return n >= 2
-    for name, bl, env in (("bfs", behs, {"C40_NORMAL": 2, "C40_TABLES": 2 if ctx.quick else 6}), ("sim", sims, {"C40_WIDE": 1})):
-        if ctx.replay_behaviours(binp, "TestVerifC40", "keystore", bl, env=env, name=name,
+    for name, bl, env in (("bfs", behs, {"C40_NORMAL": 2, "C40_TABLES": 2 if ctx.quick else 6}),
+                          ("bfs5", deep, {"C40_NORMAL": 2, "C40_TABLES": 3}), ("sim", sims, {"C40_WIDE": 1})):
+        if bl and ctx.replay_behaviours(binp, "TestVerifC40", "keystore", bl, env=env, name=name,
                                  nontrivial=changed_twice, timeout=3000) is None:
             return
     ctx.cov["exhaustive"] = True
